@@ -341,6 +341,38 @@ theorem ensure_list_cases (v : Rat) (xs : List Rat) (n : Nat) (d : Option Rat) :
     (xs.length ≠ n → ensureListForNodes (.list xs) n d = none) := by
   simp [ensureListForNodes]
 
+/-- Time-period lists: the result always has T+1 entries (when defined), entry t ≥ 1 of the result is the value meant for
+period t in every accepted argument shape, a list of the wrong length is rejected, and normalising is idempotent. -/
+theorem ensure_time_cases (v : Rat) (xs : List Rat) (T : Nat) :
+    ensureListForTimePeriods (.scalar v) T = some (some 0 :: List.replicate T (some v)) ∧
+    (xs.length = T + 1 → ensureListForTimePeriods (.list xs) T = some (xs.map some)) ∧
+    (xs.length = T → ensureListForTimePeriods (.list xs) T = some (some 0 :: xs.map some)) ∧
+    (xs.length ≠ T → xs.length ≠ T + 1 → ensureListForTimePeriods (.list xs) T = none) := by
+  refine ⟨rfl, ?_, ?_, ?_⟩
+  · intro h; simp [ensureListForTimePeriods, h]
+  · intro h; simp [ensureListForTimePeriods, h]
+  · intro h1 h2; simp [ensureListForTimePeriods, h1, h2]
+
+theorem ensure_time_length (x : Arg) (T : Nat) (l : List (Option Rat)) (h : ensureListForTimePeriods x T = some l) :
+    l.length = T + 1 := by
+  cases x with
+  | none => simp [ensureListForTimePeriods] at h; subst h; simp
+  | scalar v => simp [ensureListForTimePeriods] at h; subst h; simp
+  | list xs =>
+    simp only [ensureListForTimePeriods] at h
+    split at h
+    · rename_i h1; simp at h; subst h; simpa using h1
+    · split at h
+      · rename_i _ h2; simp at h; subst h; simpa using h2
+      · simp at h
+
+/-- The length-T form and the length-T+1 form of the same per-period values give the same periods 1..T. -/
+theorem ensure_time_forms_agree (xs : List Rat) (T : Nat) (x0 : Rat) (h : xs.length = T) :
+    (ensureListForTimePeriods (.list xs) T).map List.tail = (ensureListForTimePeriods (.list (x0 :: xs)) T).map List.tail := by
+  have h1 : (x0 :: xs).length = T + 1 := by simp [h]
+  rw [(ensure_time_cases 0 xs T).2.2.1 h, (ensure_time_cases 0 (x0 :: xs) T).2.1 h1]
+  simp
+
 theorem ensure_dict_cases (v : Rat) (xs : List Rat) (idx : List Int) (d : Option Rat) :
     ensureDictForNodes .none idx d = some (idx.map fun i => (i, d)) ∧
     ensureDictForNodes (.scalar v) idx d = some (idx.map fun i => (i, some v)) ∧
